@@ -162,7 +162,7 @@ static void advance(vs::VThread *v) {
 
 int main() {
     return main_loop([](const Case &c) {
-        if (c.lines.empty() || c.lines[0].size() != 2) { emit({PRE}); return; }
+        if (c.lines.empty() || c.lines[0].size() < 2 || c.lines[0].size() > 3) { emit({PRE}); return; }
         int nt = (int) c.lines[0][0], nrx = (int) c.lines[0][1];
         if ((size_t) (1 + nrx + nt) > c.lines.size()) { emit({PRE}); return; }
         emit({});
@@ -207,7 +207,24 @@ int main() {
             if (v->reason == vs::R_CV_BLOCKED) return v->notified && vs::enabled(v);
             return v->reason == vs::R_POINT;
         };
-        for (size_t li = 1 + nrx + nt; li < c.lines.size(); ++li) {
+        if (c.lines[0].size() == 3) {
+            // free exploration (failing-input search only): header [nthreads; nregex; seed]; every scheduling point of
+            // every thread (inside Resource::lock / unlock too) is a random choice; only the monitors judge
+            uint64_t rs = (uint64_t) c.lines[0][2] * 0x9E3779B97F4A7C15ULL + 777;
+            auto rnd = [&]() { rs ^= rs << 13; rs ^= rs >> 7; rs ^= rs << 17; return rs; };
+            for (long guard = 0; guard < 50000; ++guard) {
+                std::vector<int> en;
+                for (int t = 0; t < nt; ++t) {
+                    auto *v = W->th[t];
+                    if (v->finished) continue;
+                    if (v->reason == vs::R_POINT && v->tag == TAG_IDLE) { if (W->pc[t] < W->progs[t].size()) en.push_back(t); }
+                    else if (vs::enabled(v)) en.push_back(t);
+                }
+                if (en.empty()) break;
+                vs::step(W->th[en[rnd() % en.size()]]);
+            }
+        }
+        for (size_t li = 1 + nrx + nt; li < c.lines.size() && c.lines[0].size() == 2; ++li) {
             const Line &l = c.lines[li];
             W->labelNo = (int) (li - nrx - nt);
             if (l.size() != 1 || l[0] < 0) { emit({PRE}); continue; }
